@@ -40,7 +40,12 @@ RULE = ("per function: random multigraphs with n<=8 nodes (n=0 where the functio
         "anti-parallel edges of different weights, self loops, isolated nodes, directed/undirected (floyd_warshall), "
         "with/without target, negative weights and negative cycles (bellman_ford, floyd_warshall, kruskal weights), "
         "allow_forest, PageRank damping/tol/max_iter; each run with backend='python','rust',None; "
-        "non-trivial = the edge list has a duplicate or anti-parallel pair; distinct by (function, input, options)")
+        "non-trivial = the edge list has a duplicate or anti-parallel pair; distinct by (function, input, options); "
+        "presentation styles (outer list/tuple, one shared tuple object for equal edges, int/float weights mixed; "
+        "edges as lists recorded as outside the contract), histories of 2-4 related calls in one process "
+        "(same twice, edits keeping n and the edge count, narrow/wide, interleaved entry points; varying back-end "
+        "order; failures that pass alone get :after_previous_call), a few 200-500 node instances (60-120 for "
+        "floyd_warshall) with checkDist/checkFw/checkTopo where they scale, 30 % inexact-double inputs")
 
 FUNCS = ["floyd_warshall", "bellman_ford", "dijkstra_edges", "bfs_edges", "dfs_edges", "kruskal",
          "pagerank_edges", "strongly_connected_components_edges", "topological_sort_edges"]
@@ -225,6 +230,153 @@ def gen_case(rng, fn, big):
     return case
 
 
+STYLES = ["list", "list", "list", "tuple", "alias", "mixnum", "alias_tuple"]   # fixed shares, all inside the contract
+ORDERS = [["python", "rust", None], ["rust", "python", None], [None, "python", "rust"], ["rust", None, "python"]]
+
+
+def add_presentation(rng, case):
+    """How the (same) input is handed over: outer list / tuple, one shared tuple object for equal edges,
+    int and float weights mixed.  `inner_lists` (edges as lists) is outside the annotated contract
+    `list[tuple[...]]` and is only recorded, never gating."""
+    case["style"] = rng.choice(STYLES) if rng.random() > 0.04 else "inner_lists"
+    case["order"] = rng.choice(ORDERS)
+    return case
+
+
+def gen_history(rng):
+    """2-4 related inputs run consecutively in ONE worker call (every back-end on each, in varying order):
+    state kept in the extension module or the adapters between calls shows up as a wrong later answer."""
+    kind = rng.choice(["same_twice", "edit", "edit", "edit", "narrow_wide", "wide_narrow", "interleave", "interleave"])
+    fn = rng.choice(FUNCS)
+    a = gen_case(rng, fn, False)
+    group = [a]
+    if kind == "same_twice":
+        group.append(json.loads(json.dumps(a)))
+    elif kind == "edit":
+        for _ in range(rng.choice([1, 2, 3])):
+            b = json.loads(json.dumps(group[-1]))
+            es = b["edges"]
+            r = rng.random()
+            if es and r < 0.3:
+                # same n, same number of edges, same s/t - but (almost surely) another answer: every edge reversed,
+                # nodes relabelled, or every weight changed
+                op = rng.choice(["reverse", "relabel", "reweight"])
+                if op == "reweight" and len(es[0]) == 3 and not b.get("fp"):
+                    for e in es:
+                        e[2] = e[2] + rng.choice([4, 8, 12, 20])
+                elif op == "relabel":
+                    perm = list(range(b["n"]))
+                    rng.shuffle(perm)
+                    for e in es:
+                        e[0], e[1] = perm[e[0]], perm[e[1]]
+                else:
+                    for e in es:
+                        e[0], e[1] = e[1], e[0]
+                r = 2.0
+            if r > 1.0:
+                pass
+            elif es and r < 0.45 and len(es[0]) == 3 and not b.get("fp"):
+                e = rng.choice(es)
+                e[2] = e[2] + rng.choice([-8, -4, 4, 8, 12]) if fn != "dijkstra_edges" else e[2] + rng.choice([4, 8, 12])
+            elif es and r < 0.7:     # same length, one edge redirected
+                e = rng.choice(es)
+                e[1] = rng.randrange(b["n"])
+            elif es and r < 0.85:
+                es.pop(rng.randrange(len(es)))
+            elif b["n"]:
+                e = [rng.randrange(b["n"]), rng.randrange(b["n"])]
+                if es and len(es[0]) == 3:
+                    e.append(abs(rng.choice(es)[2]) if not b.get("fp") else abs(rng.choice(es)[2]))
+                elif fn in WEIGHTED:
+                    e.append(4)
+                es.append(e)
+            if fn == "topological_sort_edges" and rng.random() < 0.5 and len(es) > 1:
+                es.reverse()
+            for k in ("s", "t"):
+                if b.get(k) is not None and rng.random() < 0.15:
+                    b[k] = rng.randrange(b["n"])
+            group.append(b)
+    elif kind in ("narrow_wide", "wide_narrow"):
+        b = gen_case(rng, fn, False)
+        group.append(b)
+        group.sort(key=lambda c: (c["n"], len(c["edges"])), reverse=(kind == "wide_narrow"))
+        if rng.random() < 0.5:
+            group.append(json.loads(json.dumps(group[0])))
+    else:  # interleave the entry points of the area on the same edge list
+        fam = rng.choice([["bfs_edges", "dfs_edges"], ["dijkstra_edges", "bellman_ford", "floyd_warshall"],
+                          ["strongly_connected_components_edges", "topological_sort_edges", "pagerank_edges"],
+                          ["kruskal", "floyd_warshall"]])
+        bn = rng.randint(1, 8)
+        base = {"n": bn, "edges": gen_edges(rng, bn, fam[0] in WEIGHTED, 0.0, 12)}
+        group = []
+        for f in rng.sample(fam, len(fam)) + [rng.choice(fam)]:
+            c = gen_case(rng, f, False)
+            c["n"], c["edges"] = base["n"], json.loads(json.dumps(base["edges"]))
+            c.pop("fp", None)
+            c["int_weights"] = False
+            if f == "pagerank_edges":
+                c.update({"damping": 0.85, "tol": 1e-6, "max_iter": 100})
+                c.pop("defaults", None)
+            for k in ("s", "t"):
+                if c.get(k) is not None:
+                    c[k] = c[k] % c["n"]
+            group.append(c)
+    for i, c in enumerate(group):
+        add_presentation(rng, c)
+        c["hist"] = [kind, i]
+    return group
+
+
+def gen_large(rng, fn):
+    """A few instances 200-500 nodes (Floyd-Warshall 60-120): chains, stars, sparse random graphs, many ties."""
+    n = rng.choice([60, 90, 120]) if fn == "floyd_warshall" else rng.choice([200, 300, 400, 500])
+    shape = rng.choice(["chain", "star", "sparse", "sparse", "ties"])
+    weighted = fn in WEIGHTED
+    perm = list(range(n))
+    rng.shuffle(perm)
+    pairs = []
+    if shape == "chain":
+        pairs = [(perm[i], perm[i + 1]) for i in range(n - 1)]
+        pairs += [(perm[rng.randrange(n)], perm[rng.randrange(n)]) for _ in range(n // 10)]
+    elif shape == "star":
+        c = perm[0]
+        pairs = [(c, v) if rng.random() < 0.5 else (v, c) for v in perm[1:]]
+        pairs += [(v, c) for v in perm[1:n // 4]]
+    else:
+        m = rng.choice([2, 3]) * n
+        pairs = [(rng.randrange(n), rng.randrange(n)) for _ in range(m)]
+        pairs += [(perm[i], perm[i + 1]) for i in range(0, n - 1, 2)]
+    if fn == "topological_sort_edges" and rng.random() < 0.8:
+        pos = {v: i for i, v in enumerate(perm)}
+        pairs = [(u, v) if pos[u] < pos[v] else (v, u) for u, v in pairs if u != v]
+    es = []
+    for u, v in pairs:
+        if not weighted:
+            es.append([u, v])
+            continue
+        w = 4 if shape == "ties" else rng.randint(1, 60)
+        if fn in ("bellman_ford", "floyd_warshall") and rng.random() < 0.1:
+            # negative only "forwards" in a fixed order and small: no negative cycles
+            pos_u, pos_v = perm.index(u), perm.index(v)
+            if pos_u < pos_v:
+                w = -rng.randint(1, 3)
+        es.append([u, v, w])
+    case = {"fn": fn, "n": n, "edges": es, "int_weights": rng.random() < 0.3, "large": shape}
+    if fn == "floyd_warshall":
+        case["directed"] = rng.random() < 0.5
+        if not case["directed"]:
+            case["edges"] = [[u, v, abs(w)] for u, v, w in es]
+    if fn in ("bellman_ford", "dijkstra_edges"):
+        case["s"], case["t"] = perm[0], None
+    if fn in ("bfs_edges", "dfs_edges"):
+        case["s"], case["t"] = perm[0], (perm[-1] if rng.random() < 0.5 else None)
+    if fn == "kruskal":
+        case["allow_forest"] = rng.random() < 0.5
+    if fn == "pagerank_edges":
+        case.update({"damping": 0.85, "tol": rng.choice([1e-6, 1e-8]), "max_iter": rng.choice([100, 400])})
+    return add_presentation(rng, case)
+
+
 def _pr_iters(n, es, d, tol, cap=3000):
     """Float PageRank iteration count until max |change| < tol (used to pick max_iter, never to judge)."""
     if n == 0:
@@ -310,16 +462,26 @@ def _h(x):
 
 
 def _weights(case):
-    if case.get("fp"):
-        return [(e[0], e[1], float(e[2])) for e in case["edges"]]
+    """The edge list as handed to the library, in the case's presentation style."""
+    style = case.get("style", "list")
     es = []
-    for e in case["edges"]:
+    for i, e in enumerate(case["edges"]):
         if len(e) == 2:
             es.append((e[0], e[1]))
+        elif case.get("fp"):
+            es.append((e[0], e[1], float(e[2])))
         else:
             wq = e[2]
-            w = wq // SCALE if (case.get("int_weights") and wq % SCALE == 0) else wq / SCALE
+            as_int = case.get("int_weights") or (style == "mixnum" and i % 2 == 0)
+            w = wq // SCALE if (as_int and wq % SCALE == 0) else wq / SCALE
             es.append((e[0], e[1], w))
+    if style in ("alias", "alias_tuple"):   # equal edges are ONE tuple object at several positions
+        pool_ = {}
+        es = [pool_.setdefault((e, tuple(type(x) for x in e)), e) for e in es]
+    if style == "inner_lists":
+        return [list(e) for e in es]
+    if style in ("tuple", "alias_tuple"):
+        return tuple(es)
     return es
 
 
@@ -412,10 +574,15 @@ def impl_one(task):
     return _call(case, b)
 
 
+def impl_group(group):
+    """A history: the cases of the group one after the other in this one process."""
+    return [impl(c) for c in group]
+
+
 def impl(case):
     _load()
     out = {}
-    for b in BACKENDS:
+    for b in case.get("order") or BACKENDS:
         try:
             out[str(b)] = ["ok", _call(case, b)]
         except BaseException as e:  # noqa: BLE001 - pyo3 panics derive from BaseException
@@ -429,7 +596,7 @@ def impl(case):
         from solvor.pagerank import pagerank_edges
         sig = inspect.signature(getattr(pagerank_edges, "__wrapped__", pagerank_edges))
         out["pr_defaults"] = [sig.parameters[k].default for k in ("damping", "tol", "max_iter")]
-    if case["fn"] in ("bfs_edges", "dfs_edges") and case["t"] is None:
+    if case["fn"] in ("bfs_edges", "dfs_edges") and case["t"] is None and case.get("style") != "inner_lists":
         import solvor._solvor_rust as rs
         k = rs.bfs if case["fn"] == "bfs_edges" else rs.dfs
         out["raw_order"] = [int(v) for v in k(case["n"], _weights(case), case["s"], None)["visited_order"]]
@@ -460,6 +627,40 @@ def encode_fp(case, o):
     return None if st == "INFEASIBLE" else sol
 
 
+LARGE_EXACT = ("floyd_warshall", "bellman_ford", "dijkstra_edges", "topological_sort_edges")
+
+
+def encode_large(case, o):
+    """Large inputs: the verified checkers that scale (distance vectors / matrices with harness-made level
+    certificates, topological orders); everything else is compared between back-ends only."""
+    fn, st, sol = case["fn"], o["status"], o["sol"]
+    if fn in LARGE_EXACT and st == "OPTIMAL" and sol is not None:
+        return sol
+    if fn in LARGE_EXACT:
+        return SKIP
+    # equivalence only: the key still has to tell different outputs apart
+    return ["EQ", st, (sorted(sorted(c) for c in sol) if fn.startswith("strongly") else sol), o["obj"]]
+
+
+def py_levels(n, es, s, d):
+    """Untrusted certificate for checkDist: BFS depth in the subgraph of tight edges."""
+    adj = [[] for _ in range(n)]
+    for u, v, w in es:
+        if d[u] is not None and d[v] is not None and d[u] + w == d[v]:
+            adj[u].append(v)
+    lvl = [0] * n
+    seen = [False] * n
+    seen[s] = True
+    q = [s]
+    for u in q:
+        for v in adj[u]:
+            if not seen[v]:
+                seen[v] = True
+                lvl[v] = lvl[u] + 1
+                q.append(v)
+    return lvl
+
+
 def _as_sublist(es, F):
     """Reorder the returned MST edges into input order (the checker wants a sublist of the input)."""
     used, idx = set(), []
@@ -477,6 +678,8 @@ def encode_out(case, o):
     fn, st, sol, obj = case["fn"], o["status"], o["sol"], o["obj"]
     if case.get("fp"):
         return encode_fp(case, o)
+    if case.get("large"):
+        return encode_large(case, o)
     if fn == "floyd_warshall":
         return None if st == "UNBOUNDED" else sol
     if fn in ("bellman_ford", "dijkstra_edges"):
@@ -574,6 +777,24 @@ def to_request(case, outs, out=None):
     """outs: list of distinct well-formed outputs; out: the raw pool outcome (PageRank defaults)."""
     fn, n, es = case["fn"], case["n"], _wes(case)
     enc = [encode_out(case, o) for o in outs]
+    if case.get("style") == "inner_lists":
+        return None
+    if case.get("large"):
+        if fn == "pagerank_edges":
+            if len(outs) < 2:
+                return None
+            d, tol = Fraction(case["damping"]), Fraction(case["tol"])
+            return ["within", outs[0]["sol"], outs[1]["sol"], core.rat((n + 1) * tol / (1 - d))]
+        if fn not in LARGE_EXACT:
+            return None
+        if fn == "topological_sort_edges":
+            return ["topoc", n, es, [[] if e == SKIP else e for e in enc]]
+        if fn == "floyd_warshall":
+            prob = es if case["directed"] else es + [[v, u, w] for u, v, w in es]
+            return ["fwc", n, es, bool(case["directed"]), [[] if e == SKIP else e for e in enc],
+                    [[] if e == SKIP else [py_levels(n, prob, i, e[i]) for i in range(n)] for e in enc]]
+        return ["distc", n, es, case["s"], [[] if e == SKIP else e for e in enc],
+                [[] if e == SKIP else py_levels(n, es, case["s"], e) for e in enc]]
     if case.get("fp"):
         if fn == "floyd_warshall":
             return ["support", n, es, bool(case["directed"]), [None if e == SKIP else e for e in enc]]
@@ -652,6 +873,8 @@ def prepare(case, out):
 def verdicts(case, reply, k):
     """Verified-checker verdict for distinct output k -> (accepted, extra)."""
     fn = case["fn"]
+    if case.get("large"):
+        return (reply[0][k] if fn in LARGE_EXACT else True), {}
     if case.get("fp"):
         if fn == "floyd_warshall":
             return reply[0][k], {}
@@ -683,6 +906,8 @@ _REPORTED: set = set()
 def _fail(ctx, fn, klass, what, rep):
     """Every failure is counted; one replay per (function, class) and run is written, so that each
     distinct defect gets a VIOLATION line before core's cap on written replays is reached."""
+    if isinstance(ctx, Probe):       # buffered: counted and de-duplicated when it is finally reported
+        return ctx.fail(fn, klass, what, rep)
     ctx.count(f"fail:{fn}:{klass}")
     key = (id(ctx), fn, klass)
     if key in _REPORTED:
@@ -698,6 +923,25 @@ def judge(ctx, case, out, outs, idx, reply):
     mode = fn + (":target" if case.get("t") is not None else "") + \
         (":undirected" if case.get("directed") is False else "") + (":fp" if case.get("fp") else "")
     ctx.count("fn:" + mode)
+    ctx.count("style:" + case.get("style", "list"))
+    if case.get("hist"):
+        ctx.count(f"hist:{case['hist'][0]}:call{case['hist'][1]}")
+    if case.get("large"):
+        ctx.count(f"large:{fn}:{case['large']}:n{case['n']}")
+    if not case["edges"]:
+        ctx.count("empty_edge_list")
+    elif case["n"] > 1 + max(max(e[0], e[1]) for e in case["edges"]):
+        ctx.count("n_nodes_gt_largest_endpoint")
+    if case.get("style") == "inner_lists":
+        # outside the annotated contract list[tuple[...]]: recorded, never gating
+        if out[0] == "ok":
+            kinds = {b: (out[1][b][0] if out[1][b][0] == "ok" else out[1][b][1].split(":", 1)[0])
+                     for b in ("python", "rust")}
+            ctx.count(f"outside_contract:inner_lists:python={kinds['python']}:rust={kinds['rust']}")
+        else:
+            ctx.count(f"outside_contract:inner_lists:{out[0]}")
+        ctx.case([fn, case], False, None)
+        return
     if out[0] == "hung":
         kinds = out[1]
         noreturn = {"Timeout", "MemoryError", "WorkerDied"}
@@ -753,7 +997,11 @@ def judge(ctx, case, out, outs, idx, reply):
         else:
             ctx.count("pagerank_status_straddle_ignored")
     # --- verified checker on every output ------------------------------------------------------
-    if fn == "pagerank_edges":
+    if fn == "pagerank_edges" and case.get("large"):
+        ctx.count("large_equivalence_only")
+        if reply is not None and not reply[0]:
+            _fail(ctx, fn, "scores_differ", "python and rust scores differ by more than (n+1)*tol/(1-d)", rep)
+    elif fn == "pagerank_edges":
         fixed_ok, bound, near_fixed, pair = reply
         if not fixed_ok:
             raise core.Infra(f"exact PageRank vector rejected by isPrFixed: {case}")
@@ -771,6 +1019,10 @@ def judge(ctx, case, out, outs, idx, reply):
             if case.get("fp") and encode_out(case, res[b][1]) == SKIP:
                 acc[b] = True   # UNBOUNDED on an inexact-double input: only the back-end comparison applies
                 ctx.count("fp_unbounded_not_exact_checked")
+                continue
+            if case.get("large") and (fn not in LARGE_EXACT or encode_out(case, res[b][1]) == SKIP):
+                acc[b] = True   # the exact checker does not scale here: back-end comparison only
+                ctx.count("large_equivalence_only")
                 continue
             acc[b], extra = verdicts(case, reply, idx[b])
             ctx.count(f"checker:{b}:{'accept' if acc[b] else 'reject'}")
@@ -803,18 +1055,20 @@ def judge(ctx, case, out, outs, idx, reply):
     if py.get("objraw") != rs.get("objraw") and py["status"] == rs["status"]:
         ctx.count(f"objective_field_differs_not_gating:{fn}")
     # --- R_trace: mirrors of the Rust traversal kernels ------------------------------------------
-    if "raw_order" in res:
+    if "raw_order" in res and reply is not None and not case.get("large"):
         mirror = reply[2] if fn == "bfs_edges" else reply[3]
         if res["raw_order"] != mirror:
             ctx.tdiv(fn, {"case": case, "rust_visited_order": res["raw_order"], "mirror": mirror})
         else:
             ctx.count("r_trace_agree")
     ctx.case([fn, {k: v for k, v in case.items()}], dup or anti,
-             {"case": case, "python": py, "rust": rs, "default": df})
+             None if case.get("large") else {"case": case, "python": py, "rust": rs, "default": df})
 
 
 def observable(case, o):
     fn = case["fn"]
+    if case.get("large") and fn == "pagerank_edges":
+        return [o["status"]]
     if case.get("fp"):   # status + bit-exact distances / objective (paths may differ)
         if case.get("t") is not None:
             return [o["status"], o["sol"] is not None, o["obj"]]
@@ -832,7 +1086,78 @@ def observable(case, o):
     return o["sol"]
 
 
-def run_cases(ctx, cases):
+class Probe:
+    """Stands in for ctx while a later call of a history (or its solo re-run) is judged: counts and cases go
+    through (or are dropped for the solo re-run), failures are buffered."""
+
+    def __init__(self, ctx, passthrough=True):
+        self.ctx, self.passthrough, self.fails = ctx, passthrough, []
+        self.notes = ctx.notes if passthrough else []
+
+    def count(self, k, n=1):
+        if self.passthrough:
+            self.ctx.count(k, n)
+
+    def case(self, *a, **kw):
+        if self.passthrough:
+            self.ctx.case(*a, **kw)
+
+    def tdiv(self, *a, **kw):
+        if self.passthrough:
+            self.ctx.tdiv(*a, **kw)
+
+    def fail(self, fn, klass, what, rep):
+        self.fails.append((fn, klass, what, rep))
+        return True
+
+
+def _execute(groups):
+    """Run the groups in the worker pool -> flat list of (case, outcome) in order."""
+    small = [g for g in groups if not any(c.get("large") for c in g)]
+    big = [g for g in groups if any(c.get("large") for c in g)]
+    res = {}
+    for part, limit in ((small, 8.0), (big, 240.0)):
+        for g, o in zip(part, run_pool(impl_group, part, timeout=limit)):
+            res[id(g)] = o
+    flat = []
+    hung = []
+    for g in groups:
+        o = res[id(g)]
+        if o[0] == "ok":
+            flat += [(c, ("ok", oc)) for c, oc in zip(g, o[1])]
+        else:
+            for c in g:
+                hung.append(len(flat))
+                flat.append((c, o))
+    if hung:
+        # which back-ends fail to return?  (each alone, short limit; a history is split into its calls)
+        sub = run_pool(impl_one, [(flat[i][0], b) for i in hung for b in BACKENDS], timeout=4.0)
+        again = []
+        for k, i in enumerate(hung):
+            kinds = [err_kind(r) for r in sub[3 * k:3 * k + 3]]
+            if all(kd == "ok" for kd in kinds):
+                again.append(i)      # load spike, or a member of a hung history: run the case once more, alone
+            else:
+                flat[i] = (flat[i][0], ("hung", dict(zip(("python", "rust", "None"), kinds))))
+        if again:
+            for i, o in zip(again, run_pool(impl, [flat[i][0] for i in again], timeout=240.0, procs=4)):
+                flat[i] = (flat[i][0], o)
+    return flat
+
+
+def _model(flat):
+    prepared = [prepare(c, o) for c, o in flat]
+    reqs = [to_request(c, p[0], o) for (c, o), p in zip(flat, prepared)]
+    live = [r for r in reqs if r is not None]
+    answers = iter(Driver("Backend").run(live, chunks=16))
+    replies = [None if r is None else next(answers) for r in reqs]
+    for (c, _), rp in zip(flat, replies):
+        if rp and rp[0] == "error":
+            raise core.Infra(f"model rejected request: {rp} for {c}")
+    return prepared, replies
+
+
+def run_cases(ctx, groups):
     global _PKG
     info = rustbuild.build()
     _PKG = info["pkg"]
@@ -842,28 +1167,42 @@ def run_cases(ctx, cases):
         ctx.notes.append("Rust extension NOT rebuilt from the working tree: " + info.get("fallback_reason", ""))
     if info.get("default_backend") != "rust":
         raise core.Infra("default back-end is not rust although the extension was built")
-    outs = run_pool(impl, cases, timeout=8.0)
-    # a case that did not come back: which back-ends fail to return?  (each alone, short limit)
-    hung = [i for i, o in enumerate(outs) if o[0] != "ok"]
-    if hung:
-        sub = run_pool(impl_one, [(cases[i], b) for i in hung for b in BACKENDS], timeout=4.0)
-        again = []
-        for k, i in enumerate(hung):
-            kinds = [err_kind(r) for r in sub[3 * k:3 * k + 3]]
-            if all(kd == "ok" for kd in kinds):
-                again.append(i)      # load spike: run the case once more, alone
-            else:
-                outs[i] = ("hung", dict(zip(("python", "rust", "None"), kinds)))
-        if again:
-            for i, o in zip(again, run_pool(impl, [cases[i] for i in again], timeout=60.0, procs=4)):
-                outs[i] = o
-    prepared = [prepare(c, o) for c, o in zip(cases, outs)]
-    reqs = [to_request(c, p[0], o) for c, o, p in zip(cases, outs, prepared)]
-    replies = Driver("Backend").run(reqs, chunks=16)
-    for c, o, p, rp in zip(cases, outs, prepared, replies):
-        if rp and rp[0] == "error":
-            raise core.Infra(f"model rejected request: {rp} for {c}")
-        judge(ctx, c, o, p[0], p[1], rp)
+    flat = _execute(groups)
+    prepared, replies = _model(flat)
+    prev = {}   # id(case) -> the calls made before it in its history
+    for g in groups:
+        for k, c in enumerate(g):
+            prev[id(c)] = g[:k]
+    pending = []
+    for (c, o), p, rp in zip(flat, prepared, replies):
+        probe = Probe(ctx)
+        judge(probe, c, o, p[0], p[1], rp)
+        if not probe.fails:
+            continue
+        if len(pending) < 24 and not c.get("large"):
+            pending.append((c, probe.fails))     # worker processes are reused: any case has a call history
+        else:
+            for f in probe.fails:
+                _fail(ctx, *f)
+    if pending:
+        # the same inputs alone, each in a fresh process: does the failure need the previous calls?
+        solo_groups = [[c] for c, _ in pending]
+        solo = []
+        for g in solo_groups:   # one pool per case => a freshly forked worker per case
+            solo += _execute([g])
+        sp, sr = _model(solo)
+        for (c, fails), (c2, o2), p2, r2 in zip(pending, solo, sp, sr):
+            probe = Probe(ctx, passthrough=False)
+            judge(probe, c2, o2, p2[0], p2[1], r2)
+            alone = {(f[0], f[1]) for f in probe.fails}
+            for fn, klass, what, rep in fails:
+                if (fn, klass) in alone:
+                    _fail(ctx, fn, klass, what, rep)
+                else:
+                    rep = dict(rep, case=dict(c, history=prev[id(c)]),
+                               note="previous calls in the same worker process other than `history` may matter")
+                    _fail(ctx, fn, klass + ":after_previous_call",
+                          what + " (the same input alone in a fresh process passes)", rep)
     h = ctx.cov["histogram"]
     ctx.cov["cert_checked_impl"] = sum(v for k, v in h.items() if k.startswith("checker:") and k.endswith(":accept"))
     ctx.cov["r_prop_agree"] = h.get("r_prop_agree", 0)
@@ -877,14 +1216,22 @@ def run_cases(ctx, cases):
 
 def run(ctx, budget):
     ctx.cov["rule"] = RULE
-    cases = list(edge_cases()) + [c["case"] for c in core.load_corpus("C12")]
-    per_fn = (450 if ctx.tier == "quick" else 1500) * budget
+    groups = [[c] for c in edge_cases()] + [[c["case"]] for c in core.load_corpus("C12")]
+    quick = ctx.tier == "quick"
+    per_fn = (450 if quick else 1500) * budget
     for i in range(per_fn):
         for fn in FUNCS:
-            cases.append(gen_case(ctx.rng, fn, big=(ctx.tier == "thorough" and i % 3 == 0)))
-    run_cases(ctx, cases)
+            groups.append([add_presentation(ctx.rng, gen_case(ctx.rng, fn, big=(not quick and i % 3 == 0)))])
+    for _ in range((700 if quick else 1500) * budget):    # histories: fixed share of the calls
+        groups.append(gen_history(ctx.rng))
+    for _ in range(2 * budget if quick else budget):       # a few large instances per function
+        for fn in FUNCS:
+            groups.append([gen_large(ctx.rng, fn)])
+    run_cases(ctx, groups)
 
 
 def replay(ctx, body):
     ctx.cov["rule"] = RULE
-    run_cases(ctx, [body["case"]])
+    case = dict(body["case"])
+    history = case.pop("history", None) or []
+    run_cases(ctx, [list(history) + [case]])
